@@ -42,7 +42,9 @@ def run(ctx):
 
 
 # sensitivity pack (thorough tier): each seeded edit must be reported by the named rule instance
-MUTANTS = [{'name': 'degree-mul-unchecked-again', 'file': 'crates/ordinals/src/sat.rs', 'old': '    let cycle_start_epoch = cycle_number\n      .checked_mul(CYCLE_EPOCHS)\n      .ok_or_else(|| ErrorKind::IntegerRange.error(degree))?;', 'new': '    let cycle_start_epoch = cycle_number * CYCLE_EPOCHS;', 'expect': ('R31.1', 'from_degree', 'arith:Mul(')},
+MUTANTS = [{'name': 'seeded-C31-a', 'patch': 'C31-a/patch.diff', 'expect': ('R31.1', 'Sat::from_percentile', 'fcast')},
+           {'name': 'seeded-C31-b', 'patch': 'C31-b/patch.diff', 'expect': ('R31.1', 'Decimal as std::str::FromStr>::from_str', 'arith:Add')},
+           {'name': 'degree-mul-unchecked-again', 'file': 'crates/ordinals/src/sat.rs', 'old': '    let cycle_start_epoch = cycle_number\n      .checked_mul(CYCLE_EPOCHS)\n      .ok_or_else(|| ErrorKind::IntegerRange.error(degree))?;', 'new': '    let cycle_start_epoch = cycle_number * CYCLE_EPOCHS;', 'expect': ('R31.1', 'from_degree', 'arith:Mul(')},
            {'name': 'nan-guard-dropped', 'file': 'crates/ordinals/src/sat.rs', 'old': 'if !percentile.is_finite() || percentile < 0.0 {', 'new': 'if percentile < 0.0 {', 'expect': ('R31.1', 'from_percentile', 'fcast:')},
            {'name': 'inscription-id-length-guard-dropped', 'file': 'src/inscriptions/inscription_id.rs', 'old': '    if s.len() < MIN_LEN {\n      return Err(ParseError::Length(s.len()));\n    }\n', 'new': '', 'expect': ('R31.1', 'InscriptionId as std::str::FromStr', 'index-call:index(s,RangeTo')}]
 
